@@ -57,6 +57,26 @@ func genC02(t *rapid.T) model.Case {
 	knobs := ruleKnobs{maxPairs: 2, choose: true, ueAlloc: true, sdf: true, qers: true, buffer: true, sessQER: true, accessN3: accessIP()}
 	n := rapid.IntRange(1, scale(30, 45)).Draw(t, "nops")
 	var ops []model.Op
+	// most histories begin with the associations in place, so that session requests are mostly accepted ones
+	for p := 0; p < g.nPeers; p++ {
+		if rapid.IntRange(0, 3).Draw(t, "preassoc") != 0 {
+			ops = append(ops, opAssoc(p, genSeq(t)))
+			g.assoc[p] = true
+		}
+	}
+	// pickSess prefers sessions the generator believes to be live
+	pickSess := func(label string) int {
+		var live []int
+		for j, x := range g.sess {
+			if x.live {
+				live = append(live, j)
+			}
+		}
+		if len(live) > 0 && rapid.IntRange(0, 3).Draw(t, label+"live") != 0 {
+			return live[rapid.IntRange(0, len(live)-1).Draw(t, label)]
+		}
+		return rapid.IntRange(0, len(g.sess)-1).Draw(t, label)
+	}
 	for i := 0; i < n; i++ {
 		peer := rapid.IntRange(0, g.nPeers-1).Draw(t, "peer")
 		seq := genSeq(t)
@@ -99,7 +119,7 @@ func genC02(t *rapid.T) model.Case {
 			if len(g.sess) == 0 {
 				continue
 			}
-			si := rapid.IntRange(0, len(g.sess)-1).Draw(t, "sess")
+			si := pickSess("sess")
 			op := model.Op{Kind: "mod", Peer: g.sess[si].peer, Seq: seq, Sess: si}
 			if kind == "modaddr" {
 				op.Addr = rapid.SampledFrom([]string{"unknown", "foreign"}).Draw(t, "addr")
@@ -128,7 +148,7 @@ func genC02(t *rapid.T) model.Case {
 			if len(g.sess) == 0 {
 				continue
 			}
-			si := rapid.IntRange(0, len(g.sess)-1).Draw(t, "sess")
+			si := pickSess("sess")
 			op := model.Op{Kind: "del", Peer: g.sess[si].peer, Seq: seq, Sess: si}
 			if kind == "deladdr" {
 				op.Addr = "unknown"
